@@ -44,6 +44,8 @@ pub struct Binder {
     contexts: Vec<Context>,
     /// The number of occurrences of each table in the query.
     table_occurrences: HashMap<TableRefId, u32>,
+    /// The CTEs (by the id of their query) that have been referenced so far.
+    referenced_ctes: HashSet<Id>,
     /// The context used in sql udf binding
     udf_context: UdfContext,
 }
@@ -214,6 +216,7 @@ impl Binder {
             egraph: egg::EGraph::new(TypeSchemaAnalysis { catalog }),
             contexts: vec![Context::default()],
             table_occurrences: HashMap::new(),
+            referenced_ctes: HashSet::new(),
             udf_context: UdfContext::new(),
         }
     }
